@@ -910,6 +910,86 @@ def ref_union_unsortable(S, O, mapping, add_pops):
     return any(p > j for j, p in enumerate(par))
 
 
+# ---- equivalent re-orderings: the same collection written with its rows in another order ----
+
+def _copyT(T):
+    return {k: ([[x if not isinstance(x, list) else list(x) for x in r] for r in v] if k != "L" else v)
+            for k, v in T.items()}
+
+
+def permute_individual_rows(T, rng):
+    """Individual table in a random row order (nodes.individual and parents renumbered)."""
+    T = _copyT(T)
+    n = len(T["individuals"])
+    if n < 2:
+        return T, False
+    new_of_old = list(range(n))
+    rng.shuffle(new_of_old)
+    rows = [None] * n
+    for i, r in enumerate(T["individuals"]):
+        rows[new_of_old[i]] = [r[0], r[1], [new_of_old[p] if p != NULL else NULL for p in r[2]], r[3]]
+    T["individuals"] = rows
+    for nd in T["nodes"]:
+        if nd[3] != NULL:
+            nd[3] = new_of_old[nd[3]]
+    return T, new_of_old != list(range(n))
+
+
+def permute_population_rows(T, rng):
+    T = _copyT(T)
+    n = len(T["populations"])
+    if n < 2:
+        return T, False
+    new_of_old = list(range(n))
+    rng.shuffle(new_of_old)
+    rows = [None] * n
+    for i, r in enumerate(T["populations"]):
+        rows[new_of_old[i]] = r
+    T["populations"] = rows
+    for nd in T["nodes"]:
+        if nd[2] != NULL:
+            nd[2] = new_of_old[nd[2]]
+    return T, new_of_old != list(range(n))
+
+
+def swap_tied_mutations(T, rng):
+    """Swap neighbouring mutations of one site with equal (or unknown) time, neither the parent of
+    the other: the sort requirements leave their order open."""
+    T = _copyT(T)
+    ms = T["mutations"]
+    cand = [j for j in range(len(ms) - 1)
+            if ms[j][0] == ms[j + 1][0] and ms[j][4] == ms[j + 1][4] and ms[j + 1][3] != j and ms[j][1] != ms[j + 1][1]]
+    if not cand:
+        return T, False
+    for j in rng.sample(cand, min(len(cand), rng.randrange(1, 3))):
+        if ms[j + 1][3] == j or ms[j][3] == j + 1:
+            continue
+        ms[j], ms[j + 1] = ms[j + 1], ms[j]
+        for m in ms:
+            if m[3] == j:
+                m[3] = j + 1
+            elif m[3] == j + 1:
+                m[3] = j
+    return T, True
+
+
+def permute_node_rows(T, mapping, rng):
+    """`other` with its node ids permuted (node_mapping re-indexed accordingly)."""
+    n = len(T["nodes"])
+    if n < 2:
+        return T, mapping, False
+    new_of_old = list(range(n))
+    rng.shuffle(new_of_old)
+    T2 = relabel_nodes(T, new_of_old)
+    m2 = [None] * n
+    for k in range(n):
+        m2[new_of_old[k]] = mapping[k]
+    return T2, m2, new_of_old != list(range(n))
+
+
+REORDER = ("none", "inds", "pops", "muts", "nodes", "inds+muts", "all", "canon", "self-inds", "self-canon")
+
+
 class Union(Family):
     name = "union"
     prelude = PRELUDE
@@ -930,7 +1010,8 @@ class Union(Family):
             yield {"desc": d, "mode": mode, "cut": rng.choice((times[1:] or times) * 2 + [times[0], times[-1] + 1]),
                    "seed": rng.randrange(1 << 30), "perturb": rng.choice(PERTURB[:1] * 6 + PERTURB[1:]),
                    "check": rng.random() < 0.7, "add_pops": rng.random() < 0.5,
-                   "rp": rng.random() < 0.5, "ru": rng.random() < 0.7, "form": rng.choice(FORMS)}
+                   "rp": rng.random() < 0.5, "ru": rng.random() < 0.7, "form": rng.choice(FORMS),
+                   "reorder": rng.choice(REORDER[:1] * 3 + REORDER[1:])}
 
     def build(self, case, T):
         """self/other as plain lists, from the sorted input tables T (pure python)."""
@@ -947,6 +1028,19 @@ class Union(Family):
         O = ref_subset(T, B, case["rp"], case["ru"])
         mapping = mapping_of(A, B)
         O, changed = perturb(O, mapping, case["perturb"], rng)
+        # the same two collections, rows written in a different but equivalent order
+        ro = case.get("reorder", "none")
+        if ro in ("inds", "inds+muts", "all"):
+            O, _ = permute_individual_rows(O, rng)
+        if ro in ("pops", "all"):
+            O, _ = permute_population_rows(O, rng)
+        if ro in ("muts", "inds+muts", "all"):
+            O, _ = swap_tied_mutations(O, rng)
+        if ro in ("nodes", "all"):
+            O, mapping, _ = permute_node_rows(O, mapping, rng)
+        if ro == "self-inds":
+            S, _ = permute_individual_rows(S, rng)
+            S, _ = swap_tied_mutations(S, rng)
         return S, O, mapping, changed, A, B
 
     def observe(self, case):
@@ -958,6 +1052,11 @@ class Union(Family):
         s, o = undump(S, scale), undump(O, scale)
         s.sort()
         o.sort()
+        # one part passed through canonicalise() between the split and the join (node ids stay)
+        if case.get("reorder") == "canon":
+            o.canonicalise(remove_unreferenced=False)
+        if case.get("reorder") == "self-canon":
+            s.canonicalise(remove_unreferenced=False)
         obs["S"], obs["O"] = dump(s, scale), dump(o, scale)
         marg = lambda: as_form(mapping, case.get("form", "list"), int(s.nodes.num_rows))
         for api in ("tc", "ts"):
@@ -1026,7 +1125,7 @@ class Union(Family):
 
     def describe(self, case, obs):
         return {"mode": case["mode"], "perturb": case["perturb"] if obs["changed"] else "none",
-                "form": case.get("form", "list"),
+                "form": case.get("form", "list"), "reorder": case.get("reorder", "none"),
                 "flags": "check=%d,add_pops=%d" % (case["check"], case["add_pops"]),
                 "outcome": obs["tc"].get("code", "error") if "error" in obs["tc"] else "ok",
                 "new_nodes": min(sum(1 for m in obs["mapping"] if m == NULL), 6)}
@@ -1054,6 +1153,8 @@ def inverse_domain(T, A, B, case):
     else:
         if pops_new and case["rp"]:
             return False, "add_populations=False needs equal population ids; reorder_populations renumbers"
+        if pops_new and case.get("between", "none").startswith("canon"):
+            return False, "add_populations=False needs equal population ids; canonicalise of one part renumbers"
     if not case["ru"]:
         ref = {nd[3] for nd in T["nodes"]} - {NULL}
         for u in newn:
@@ -1077,7 +1178,8 @@ class Inverse(Family):
             yield {"desc": d, "cut": rng.choice((times[1:] or times) * 3 + [times[0], times[-1] + 1]),
                    "seed": rng.randrange(1 << 30),
                    "check": rng.random() < 0.6, "add_pops": rng.random() < 0.5,
-                   "rp": rng.random() < 0.5, "ru": rng.random() < 0.7, "shuffle": rng.random() < 0.7}
+                   "rp": rng.random() < 0.5, "ru": rng.random() < 0.7, "shuffle": rng.random() < 0.7,
+                   "between": rng.choice(["none", "none", "canon-other", "canon-self", "sort-inds-other"])}
 
     def cover(self, case, T):
         rng = random.Random(case["seed"])
@@ -1099,6 +1201,18 @@ class Inverse(Family):
             ts = tc.tree_sequence()
             s = ts.subset(A, reorder_populations=case["rp"], remove_unreferenced=case["ru"])
             o = ts.subset(B, reorder_populations=case["rp"], remove_unreferenced=case["ru"])
+            # a part may be re-written in an equivalent row order between the split and the join
+            bt = case.get("between", "none")
+            if bt != "none":
+                tt = (s if bt == "canon-self" else o).dump_tables()
+                if bt == "sort-inds-other":
+                    tt.sort_individuals()
+                else:
+                    tt.canonicalise(remove_unreferenced=False)
+                if bt == "canon-self":
+                    s = tt.tree_sequence()
+                else:
+                    o = tt.tree_sequence()
             obs["S"], obs["O"] = dump(s.dump_tables(), scale), dump(o.dump_tables(), scale)
             u = s.union(o, mapping, check_shared_equality=case["check"], add_populations=case["add_pops"])
             ut = u.dump_tables()
@@ -1125,7 +1239,7 @@ class Inverse(Family):
         T, A, B = obs["T"], obs["A"], obs["B"]
         dom, why = inverse_domain(T, A, B, case)
         if "exception" in obs:
-            if (not dom and not case["add_pops"] and case["rp"]
+            if (not dom and not case["add_pops"] and (case["rp"] or case.get("between", "none").startswith("canon"))
                     and obs["exception"]["code"] == "TSK_ERR_POPULATION_OUT_OF_BOUNDS"):
                 return []     # add_populations=False with population ids that self does not have
             return [("inverse-refused", "split/re-join raised %r" % (obs["exception"],))]
@@ -1150,6 +1264,13 @@ class Inverse(Family):
     def coq_check(self, case, obs):
         if "exception" in obs or len(obs["T"]["nodes"]) > 10:
             return None
+        if case.get("between", "none") != "none":
+            # the model of the experiment has no re-ordering step: compare the union itself
+            if len(obs["S"]["nodes"]) + len(obs["O"]["nodes"]) > 16:
+                return None
+            return "res_tables_eqb (union %s %s %s %s %s) %s" % (
+                coq_tables(obs["S"]), coq_tables(obs["O"]), czl(obs["mapping"]),
+                "true" if case["check"] else "false", "true" if case["add_pops"] else "false", coq_tables(obs["U"]))
         T = obs["T"]
         # the model on the same split: sort(subset) each, union, must give the implementation's U
         return ("res_tables_eqb (split_join %s %s %s %s %s %s %s) %s"
